@@ -88,3 +88,258 @@ Theorem C02_truncation_is_never_a_clean_eof_v2 :
           = Ok (2, roots, mkscan (firstn j bs) e)).
 Proof. exact br_read_all_trunc_v2. Qed.
 Print Assumptions C02_truncation_is_never_a_clean_eof_v2.
+
+(* ==== round 2: the remaining scanning readers named by the property ================================
+   (b),(c) for the internal carv1.CarReader and for the root-module car.CarReader, the loaders
+   (car.LoadCar, internal carv1.LoadCar; Put path and PutMany path; any store-fault script), full
+   inspection (Reader.Inspect(true)) and SkipNext.  Statements that have the same shape for the
+   internal and the root-module code are stated as one theorem (a conjunction): every
+   Print Assumptions walks the whole dependency cone, and the check has a time budget. *)
+From GoCar Require Import Loaders Inspect BlockReaderPos.
+From GoCarProofs Require Import ReadOnlyRoundTrip ScanTruncRoot LoaderFacts ScanTruncInspect.
+
+(* ---- internal carv1.CarReader (NewCarReaderWithoutDefaults + Next loop) ---------------------------- *)
+Theorem C02_carv1_reader_truncation_is_never_a_clean_eof :
+  forall hok hdrdec o roots bs k,
+    hdr_good hdrdec roots -> blen (enc_header (Some roots) 1) <= o_maxh o ->
+    blen (enc_header (Some roots) 1) < two63 -> roots <> [] ->
+    Forall (block_ok (o_maxs o)) bs -> Forall (hash_good hok) bs ->
+    k < blen (enc_payload roots bs) ->
+    ~ (exists j, (j <= length bs)%nat /\
+                 k = blen (ld (enc_header (Some roots) 1)) + blen (enc_sections (firstn j bs))) ->
+    (k < blen (ld (enc_header (Some roots) 1)) /\
+       exists e, carv1_read_all hok hdrdec o (take k (enc_payload roots bs)) = Err e)
+    \/ (blen (ld (enc_header (Some roots) 1)) <= k /\ exists j e, (j < length bs)%nat /\ e <> EEof /\
+          carv1_read_all hok hdrdec o (take k (enc_payload roots bs))
+          = Ok (roots, mkscan (firstn j bs) e)).
+Proof. exact carv1_read_all_trunc_v1. Qed.
+Print Assumptions C02_carv1_reader_truncation_is_never_a_clean_eof.
+
+Theorem C02_carv1_reader_corrupted_block_stops_the_scan_with_an_error :
+  forall hok hdrdec o roots pre c d rest,
+    hdr_good hdrdec roots -> blen (enc_header (Some roots) 1) <= o_maxh o ->
+    blen (enc_header (Some roots) 1) < two63 -> roots <> [] ->
+    Forall (block_ok (o_maxs o)) pre -> Forall (hash_good hok) pre ->
+    block_ok (o_maxs o) (c, d) -> hash_bad hok (c, d) ->
+    carv1_read_all hok hdrdec o
+      (ld (enc_header (Some roots) 1) ++ enc_sections pre ++ enc_section c d ++ rest)
+    = Ok (roots, mkscan pre EOther).
+Proof. exact carv1_read_all_corrupt_v1. Qed.
+Print Assumptions C02_carv1_reader_corrupted_block_stops_the_scan_with_an_error.
+
+(* ---- root-module car.CarReader (encoding/binary varints over bufio; CidFromReader on the section
+   buffer; 32 MiB section cap).  [root_block_ok]: a well-formed CID with a digest within go-cid's
+   stream-parser cap, section within util.MaxAllowedSectionSize. *)
+Theorem C02_root_reader_truncation_is_never_a_clean_eof :
+  forall hok hdrdec roots bs k,
+    hdr_good hdrdec roots -> blen (enc_header (Some roots) 1) <= root_max_section -> roots <> [] ->
+    Forall root_block_ok bs -> Forall (hash_good hok) bs ->
+    k < blen (enc_payload roots bs) ->
+    ~ (exists j, (j <= length bs)%nat /\
+                 k = blen (ld (enc_header (Some roots) 1)) + blen (enc_sections (firstn j bs))) ->
+    (k < blen (ld (enc_header (Some roots) 1)) /\
+       exists e, root_read_all hok hdrdec (take k (enc_payload roots bs)) = Err e)
+    \/ (blen (ld (enc_header (Some roots) 1)) <= k /\ exists j e, (j < length bs)%nat /\ e <> EEof /\
+          root_read_all hok hdrdec (take k (enc_payload roots bs))
+          = Ok (roots, mkscan (firstn j bs) e)).
+Proof. exact root_read_all_trunc_v1. Qed.
+Print Assumptions C02_root_reader_truncation_is_never_a_clean_eof.
+
+Theorem C02_root_reader_corrupted_block_stops_the_scan_with_an_error :
+  forall hok hdrdec roots pre c d rest,
+    hdr_good hdrdec roots -> blen (enc_header (Some roots) 1) <= root_max_section -> roots <> [] ->
+    Forall root_block_ok pre -> Forall (hash_good hok) pre ->
+    root_block_ok (c, d) -> hash_bad hok (c, d) ->
+    root_read_all hok hdrdec
+      (ld (enc_header (Some roots) 1) ++ enc_sections pre ++ enc_section c d ++ rest)
+    = Ok (roots, mkscan pre EOther).
+Proof. exact root_read_all_corrupt_v1. Qed.
+Print Assumptions C02_root_reader_corrupted_block_stops_the_scan_with_an_error.
+
+(* both read the intact archive back completely (so the four theorems above are about real deviations) *)
+Theorem C02_carv1_and_root_readers_read_the_intact_archive_back :
+  forall hok hdrdec roots bs,
+    hdr_good hdrdec roots -> roots <> [] -> Forall (hash_good hok) bs ->
+    (forall o, blen (enc_header (Some roots) 1) <= o_maxh o -> blen (enc_header (Some roots) 1) < two63 ->
+       Forall (block_ok (o_maxs o)) bs ->
+       carv1_read_all hok hdrdec o (enc_payload roots bs) = Ok (roots, mkscan bs EEof)) /\
+    (blen (enc_header (Some roots) 1) <= root_max_section -> Forall root_block_ok bs ->
+       root_read_all hok hdrdec (enc_payload roots bs) = Ok (roots, mkscan bs EEof)).
+Proof. exact readers_read_back. Qed.
+Print Assumptions C02_carv1_and_root_readers_read_the_intact_archive_back.
+
+(* ---- the loaders.  [carv1_load hok hdrdec fast fail file] / [root_load ...] is LoadCar over the bytes
+   [file] into a store with ([fast = true]) or without a PutMany method, whose call number [k] fails
+   when [fail = Some k]; the outcome is the list of store calls made (each with its blocks) and
+   roots | error.  The internal loader reads with the default limits ([default_ropts]).
+
+   For ALL byte strings, both paths, every store script: the blocks handed to the store are a prefix
+   of what the reader's Next loop returns on the same bytes; the loader succeeds only if that loop
+   ended with a clean io.EOF, all of its blocks were handed over and no store call failed; without
+   store faults it returns exactly the reader's terminating error (success iff clean EOF), and the
+   Put path has then stored every block the reader returned, one call per block. *)
+Theorem C02_loaders_follow_their_readers :
+  forall hok hdrdec fast fail file,
+    match carv1_read_all hok hdrdec default_ropts file with
+    | Err e => carv1_load hok hdrdec fast fail file = mkload [] (Err e)
+    | Ok (roots, out) =>
+      let lo := carv1_load hok hdrdec fast fail file in
+      (exists t, concat (l_calls lo) ++ t = s_blocks out) /\
+      (forall roots', l_res lo = Ok roots' ->
+         roots' = roots /\ concat (l_calls lo) = s_blocks out /\ s_end out = EEof /\
+         forall k, fail = Some k -> N.of_nat (length (l_calls lo)) <= k) /\
+      (fail = None ->
+         l_res lo = match s_end out with EEof => Ok roots | e => Err e end /\
+         (s_end out = EEof \/ fast = false -> concat (l_calls lo) = s_blocks out)) /\
+      (fast = false -> l_calls lo = map (fun b => [b]) (concat (l_calls lo)))
+    end /\
+    match root_read_all hok hdrdec file with
+    | Err e => root_load hok hdrdec fast fail file = mkload [] (Err e)
+    | Ok (roots, out) =>
+      let lo := root_load hok hdrdec fast fail file in
+      (exists t, concat (l_calls lo) ++ t = s_blocks out) /\
+      (forall roots', l_res lo = Ok roots' ->
+         roots' = roots /\ concat (l_calls lo) = s_blocks out /\ s_end out = EEof /\
+         forall k, fail = Some k -> N.of_nat (length (l_calls lo)) <= k) /\
+      (fail = None ->
+         l_res lo = match s_end out with EEof => Ok roots | e => Err e end /\
+         (s_end out = EEof \/ fast = false -> concat (l_calls lo) = s_blocks out)) /\
+      (fast = false -> l_calls lo = map (fun b => [b]) (concat (l_calls lo)))
+    end.
+Proof. exact loaders_refine_readers. Qed.
+Print Assumptions C02_loaders_follow_their_readers.
+
+(* a caller cannot mistake a cut archive for a complete one: a nil error means the reader's loop over
+   the same bytes ended with a clean EOF, exactly its blocks went to the store, no store call failed *)
+Theorem C02_loaders_succeed_only_on_a_complete_clean_scan :
+  forall hok hdrdec fast fail file calls roots,
+    (carv1_load hok hdrdec fast fail file = mkload calls (Ok roots) ->
+       carv1_read_all hok hdrdec default_ropts file = Ok (roots, mkscan (concat calls) EEof) /\
+       forall k, fail = Some k -> N.of_nat (length calls) <= k) /\
+    (root_load hok hdrdec fast fail file = mkload calls (Ok roots) ->
+       root_read_all hok hdrdec file = Ok (roots, mkscan (concat calls) EEof) /\
+       forall k, fail = Some k -> N.of_nat (length calls) <= k).
+Proof. exact loaders_ok_complete. Qed.
+Print Assumptions C02_loaders_succeed_only_on_a_complete_clean_scan.
+
+(* (a) for the loaders: only blocks that hash to their CIDs ever reach the store -- all byte strings *)
+Theorem C02_loaders_store_only_intact_blocks :
+  forall hok hdrdec fast fail file,
+    Forall (intact hok) (concat (l_calls (carv1_load hok hdrdec fast fail file))) /\
+    Forall (intact_root hok) (concat (l_calls (root_load hok hdrdec fast fail file))).
+Proof. exact loaders_store_only_intact. Qed.
+Print Assumptions C02_loaders_store_only_intact_blocks.
+
+(* (b) for the loaders: a cut that is not on a section boundary makes LoadCar return an error (never
+   nil), having stored only complete blocks from in front of the cut (none when the cut is in the
+   header; all of them on the Put path without store faults); without store faults the error is the
+   reader's and is not io.EOF. *)
+Theorem C02_carv1_loader_fails_on_a_truncated_archive :
+  forall hok hdrdec fast fail roots bs k,
+    hdr_good hdrdec roots -> blen (enc_header (Some roots) 1) <= o_maxh default_ropts ->
+    roots <> [] -> Forall (block_ok (o_maxs default_ropts)) bs -> Forall (hash_good hok) bs ->
+    k < blen (enc_payload roots bs) ->
+    ~ (exists j, (j <= length bs)%nat /\
+                 k = blen (ld (enc_header (Some roots) 1)) + blen (enc_sections (firstn j bs))) ->
+    exists calls e, carv1_load hok hdrdec fast fail (take k (enc_payload roots bs)) = mkload calls (Err e) /\
+      (k < blen (ld (enc_header (Some roots) 1)) -> calls = []) /\
+      (exists j t, (j <= length bs)%nat /\ concat calls ++ t = firstn j bs /\
+         (blen (ld (enc_header (Some roots) 1)) <= k ->
+            (j < length bs)%nat /\ (fail = None -> fast = false -> t = []))) /\
+      (blen (ld (enc_header (Some roots) 1)) <= k -> fail = None -> e <> EEof).
+Proof. exact carv1_load_trunc. Qed.
+Print Assumptions C02_carv1_loader_fails_on_a_truncated_archive.
+
+Theorem C02_root_loader_fails_on_a_truncated_archive :
+  forall hok hdrdec fast fail roots bs k,
+    hdr_good hdrdec roots -> blen (enc_header (Some roots) 1) <= root_max_section ->
+    roots <> [] -> Forall root_block_ok bs -> Forall (hash_good hok) bs ->
+    k < blen (enc_payload roots bs) ->
+    ~ (exists j, (j <= length bs)%nat /\
+                 k = blen (ld (enc_header (Some roots) 1)) + blen (enc_sections (firstn j bs))) ->
+    exists calls e, root_load hok hdrdec fast fail (take k (enc_payload roots bs)) = mkload calls (Err e) /\
+      (k < blen (ld (enc_header (Some roots) 1)) -> calls = []) /\
+      (exists j t, (j <= length bs)%nat /\ concat calls ++ t = firstn j bs /\
+         (blen (ld (enc_header (Some roots) 1)) <= k ->
+            (j < length bs)%nat /\ (fail = None -> fast = false -> t = []))) /\
+      (blen (ld (enc_header (Some roots) 1)) <= k -> fail = None -> e <> EEof).
+Proof. exact root_load_trunc. Qed.
+Print Assumptions C02_root_loader_fails_on_a_truncated_archive.
+
+(* (c) for the loaders: a section whose bytes do not hash to its CID makes LoadCar return an error, having
+   stored only blocks from in front of it (all of them, one per call, on the Put path without faults) *)
+Theorem C02_loaders_fail_on_a_corrupted_block :
+  forall hok hdrdec fast fail roots pre c d rest,
+    hdr_good hdrdec roots -> roots <> [] -> Forall (hash_good hok) pre -> hash_bad hok (c, d) ->
+    (blen (enc_header (Some roots) 1) <= o_maxh default_ropts ->
+     Forall (block_ok (o_maxs default_ropts)) pre -> block_ok (o_maxs default_ropts) (c, d) ->
+     exists calls e t,
+       carv1_load hok hdrdec fast fail
+         (ld (enc_header (Some roots) 1) ++ enc_sections pre ++ enc_section c d ++ rest)
+       = mkload calls (Err e) /\ concat calls ++ t = pre /\
+       (fail = None -> e = EOther /\ (fast = false -> calls = map (fun b => [b]) pre))) /\
+    (blen (enc_header (Some roots) 1) <= root_max_section ->
+     Forall root_block_ok pre -> root_block_ok (c, d) ->
+     exists calls e t,
+       root_load hok hdrdec fast fail
+         (ld (enc_header (Some roots) 1) ++ enc_sections pre ++ enc_section c d ++ rest)
+       = mkload calls (Err e) /\ concat calls ++ t = pre /\
+       (fail = None -> e = EOther /\ (fast = false -> calls = map (fun b => [b]) pre))).
+Proof. exact loaders_corrupt. Qed.
+Print Assumptions C02_loaders_fail_on_a_corrupted_block.
+
+(* the intact archive loads completely when the store does not fail *)
+Theorem C02_loaders_load_the_intact_archive :
+  forall hok hdrdec fast roots bs,
+    hdr_good hdrdec roots -> roots <> [] -> Forall (hash_good hok) bs ->
+    (blen (enc_header (Some roots) 1) <= o_maxh default_ropts ->
+     Forall (block_ok (o_maxs default_ropts)) bs ->
+     exists calls, carv1_load hok hdrdec fast None (enc_payload roots bs) = mkload calls (Ok roots) /\
+                   concat calls = bs) /\
+    (blen (enc_header (Some roots) 1) <= root_max_section -> Forall root_block_ok bs ->
+     exists calls, root_load hok hdrdec fast None (enc_payload roots bs) = mkload calls (Ok roots) /\
+                   concat calls = bs).
+Proof. exact loaders_intact. Qed.
+Print Assumptions C02_loaders_load_the_intact_archive.
+
+(* ---- full inspection: NewReader + Reader.Inspect(true) ([inspect_file ... true]), corollaries of
+   C13_inspect_iff_scan and C13_inspect_eof_error_never_from_a_section.  Section limit up to go-cid's
+   32 MiB stream-parser cap, as in C13. *)
+Theorem C02_inspect_fails_on_a_truncated_archive :
+  forall hok hdrdec o roots bs k,
+    o_maxs o <= max_digest_alloc ->
+    hdr_good hdrdec roots -> blen (enc_header (Some roots) 1) <= o_maxh o ->
+    blen (enc_header (Some roots) 1) < two63 ->
+    Forall (block_ok (o_maxs o)) bs -> Forall (hash_good hok) bs ->
+    k < blen (enc_payload roots bs) ->
+    ~ (exists j, (j <= length bs)%nat /\
+                 k = blen (ld (enc_header (Some roots) 1)) + blen (enc_sections (firstn j bs))) ->
+    exists e, inspect_file hok hdrdec o (take k (enc_payload roots bs)) true = Err e /\
+              (blen (ld (enc_header (Some roots) 1)) <= k -> e <> EEof).
+Proof. exact inspect_trunc_v1. Qed.
+Print Assumptions C02_inspect_fails_on_a_truncated_archive.
+
+Theorem C02_inspect_fails_on_a_corrupted_block :
+  forall hok hdrdec o roots pre c d rest,
+    o_maxs o <= max_digest_alloc ->
+    hdr_good hdrdec roots -> blen (enc_header (Some roots) 1) <= o_maxh o ->
+    blen (enc_header (Some roots) 1) < two63 ->
+    Forall (block_ok (o_maxs o)) pre -> Forall (hash_good hok) pre ->
+    block_ok (o_maxs o) (c, d) -> hash_bad hok (c, d) ->
+    exists e, e <> EEof /\
+      inspect_file hok hdrdec o
+        (ld (enc_header (Some roots) 1) ++ enc_sections pre ++ enc_section c d ++ rest) true = Err e.
+Proof. exact inspect_corrupt_v1. Qed.
+Print Assumptions C02_inspect_fails_on_a_corrupted_block.
+
+(* ---- SkipNext (and Next) of the position-tracking BlockReader model of C14: whenever what is left in
+   front of the reader is a proper non-empty prefix of a section -- the state after the complete
+   sections of a cut archive have been consumed by any mix of the two calls -- neither reports io.EOF
+   (corollary of C14_eof_only_at_a_clean_end). *)
+Theorem C02_skipnext_never_reports_a_cut_section_as_eof :
+  forall hok o st c d m,
+    block_ok (o_maxs o) (c, d) -> 0 < m -> m < blen (enc_section c d) ->
+    vis st = take m (enc_section c d) ->
+    brp_skip o st <> Err EEof /\ brp_next hok o st <> Err EEof.
+Proof. exact skip_next_cut_section_not_eof. Qed.
+Print Assumptions C02_skipnext_never_reports_a_cut_section_as_eof.
